@@ -67,7 +67,13 @@ func c04Profiles(tier string) []Profile {
 			}
 			return append(ls, snapLetters(w, alive, true)...)
 		}}
-	return []Profile{p.Profile(fmt.Sprintf("every history of length <= %d interleaving Set/Delete/Evict/Flush/RemoveCollection/SetCollection(existing and new)/Close on the original with Snapshot (of the original and of snapshots, <= %d alive), full reads of a snapshot, FlushRevert of a snapshot, Close of a snapshot and the refused Set/Delete/Flush on a snapshot; at the end every open snapshot is compared, through the whole public read API, with the deep copy of the model taken when it was created, the original with the model, and every write or truncate issued during a snapshot letter is a violation", d, alive))}
+	var conc []Profile
+	for _, sc := range c05More() {
+		if sc.Name == "S12-snapshot-replaced" || sc.Name == "S5-snapshot" {
+			conc = append(conc, sc.Profile(1))
+		}
+	}
+	return append(conc, p.Profile(fmt.Sprintf("every history of length <= %d interleaving Set/Delete/Evict/Flush/RemoveCollection/SetCollection(existing and new)/Close on the original with Snapshot (of the original and of snapshots, <= %d alive), full reads of a snapshot, FlushRevert of a snapshot, Close of a snapshot and the refused Set/Delete/Flush on a snapshot; at the end every open snapshot is compared, through the whole public read API, with the deep copy of the model taken when it was created, the original with the model, and every write or truncate issued during a snapshot letter is a violation", d, alive)))
 }
 
 func init() {
